@@ -101,8 +101,12 @@ def run(pid, tier, seed, a, t0):
     allobls = []
     cons = [c for c in REGISTRY.values() if pid in c.props]
     by_contract = {}
+    from . import values as _values
     for c in cons:
         try:
+            _values.reset_names()
+            symex._cell_ctr[0] = 0
+            symex.OPAQUE_DEFS.clear()
             ex = symex.Executor(c, specmod)
             obls = ex.run()
             if not obls:
@@ -122,6 +126,9 @@ def run(pid, tier, seed, a, t0):
     lemma_obls = []
     for lm in LEMMAS.values():
         if pid in lm.props:
+            _values.reset_names()
+            symex._cell_ctr[0] = 0
+            symex.OPAQUE_DEFS.clear()
             S = symex.SpecCtx(specmod, lm.axioms)
             for sub, hyps, goal in lm.build(S):
                 o = symex.Obligation("lemma", "lemma", "%s.%s" % (lm.name, sub), None, hyps, goal, lm.notes)
